@@ -230,7 +230,7 @@ BOUNDS = {
     "quick": "level 1 (callable_method(f)(*a, **kw)): every legal signature with <= 3 named parameters (<=1 positional-only, <=2 positional-or-keyword, "
     "<=2 keyword-only, optional *args / **kwargs, every default placement, two name assignments mixing user and reserved names), as plain function and bound "
     "method, each path binding all of 0..3 positional arguments x every subset of keywords {x, y, source, q}; level 2 (sm.send end-to-end, sync and async engine): signatures with "
-    "<= 2 named parameters as an `on_go` method, 0..2 positional arguments, keyword subsets of {x, source, machine, key} (two of them reserved names, `key` undeclared), plus the same signature on the event that an "
+    "<= 2 named parameters as an `on_go` method, an `on_enter_b` method and a guard used as `cond='not veto'`, 0..2 positional arguments, keyword subsets of {x, source, machine, key} (two of them reserved names, `key` undeclared), plus the same signature on the event that an "
     "`after='hop'` action forwards to; level 3: every ordered pair out of 12 callables that share one qualified name and differ in parameter kinds, keyword-only names or defaults, bound one after the other.",
     "thorough": "<= 4 named parameters at level 1 also as functools.partial and coroutine function; <= 3 named at level 2.",
 }
@@ -363,6 +363,8 @@ def l2_machine(sig, engine):
     log_src = (
         f"{'async ' if engine == 'async' else ''}def {uniq}(self, {sig_text(sig)}):\n"
         f"    r = {body}\n    self.seen.append(r)\n    return r\n"
+        f"def veto_{uniq}(self, {sig_text(sig)}):\n"
+        f"    r = {body}\n    self.seen_guard.append(r)\n    return False\n"
     )
     ns = {"_SENT": _SENT}
     exec(compile(log_src.replace("(self, )", "(self)"), f"<c07:{uniq}>", "exec"), ns)  # noqa: S102
@@ -372,10 +374,15 @@ def l2_machine(sig, engine):
         "b": State(),
         "c": State(),
     }
-    attrs["go"] = attrs["a"].to(attrs["b"], after="hop")
+    # the guard is used under a negation inside an expression, so it is called through the expression combinators
+    attrs["go"] = attrs["a"].to(attrs["b"], cond="not veto", after="hop")
     attrs["hop"] = attrs["b"].to(attrs["c"]) | attrs["c"].to(attrs["a"])
     attrs["on_go"] = m
     attrs["on_hop"] = m
+    attrs["on_enter_b"] = m
+    veto = ns["veto_" + uniq]
+    veto.__name__ = "veto"
+    attrs["veto"] = veto
     cls = type(StateMachine)(f"C07L2{uniq}", (StateMachine,), attrs)
     _L2[key] = cls
     return cls
@@ -391,11 +398,13 @@ def run_l2(ctx, params):
         if engine == "async":
             sm.activate_initial_state()
         sm.seen = []
+        sm.seen_guard = []
     tag = f"L2:{engine}"
     for args, ukw in all_shapes(ctx, KW_POOL_L2, 2, falsy_pass=False):
         with ctx.notracing():
             sm.current_state_value = "a"
             del sm.seen[:]
+            del sm.seen_guard[:]
         l2_one(ctx, sm, sig, args, ukw, tag)
     ctx.note({"sig": describe(sig)})
 
@@ -440,10 +449,10 @@ def l2_one(ctx, sm, sig, args, ukw, tag):
         return
     if outcome == "TypeError":
         raise Mismatch(f"spurious-TypeError:{tag}", f"on_go({describe(sig)}) with {len(args)} positional, keywords {sorted(ukw)}: {err}")
-    if len(sm.seen) != 2:
-        raise Mismatch(f"callback-count:{tag}", f"expected on_go then on_hop (forwarded), saw {len(sm.seen)} call(s)")
-    views = [builtins_for("a", "b", "go"), builtins_for("b", "c", "hop")]
-    for got, view, which in zip(sm.seen, views, ("on_go", "forwarded on_hop")):
+    if len(sm.seen) != 3 or len(sm.seen_guard) != 1:
+        raise Mismatch(f"callback-count:{tag}", f"expected the guard once and on_go, on_enter_b, on_hop (forwarded); saw {len(sm.seen_guard)} + {len(sm.seen)} call(s)")
+    views = [builtins_for("a", "b", "go"), builtins_for("a", "b", "go"), builtins_for("a", "b", "go"), builtins_for("b", "c", "hop")]
+    for got, view, which in zip(sm.seen_guard + sm.seen, views, ("guard under `not`", "on_go", "on_enter_b", "forwarded on_hop")):
         for k, e in exp.items():
             if k == "**":
                 g = {kk: vv for kk, vv in got["**"].items() if kk not in RESERVED}
